@@ -121,6 +121,7 @@ func LoadKnown(verifDir string) (*KnownFile, error) {
 type Driver struct {
 	Prop     string
 	Tier     string // quick | thorough
+	IsReplay bool   // re-run of one stored case: its evidence goes to evidence/replay/, not over the check's own
 	Seed     int64
 	VerifDir string
 	Scratch  string // removed at the end
@@ -373,8 +374,12 @@ func (d *Driver) Finish(minEvaluations, minDistinct int) int {
 		ev["assumptions"] = []string{}
 	}
 	body, _ := json.MarshalIndent(ev, "", " ")
-	_ = os.MkdirAll(filepath.Join(d.OutDir(), "evidence"), 0o755)
-	_ = os.WriteFile(filepath.Join(d.OutDir(), "evidence", d.Prop+".json"), body, 0o644)
+	evDir := filepath.Join(d.OutDir(), "evidence")
+	if d.IsReplay {
+		evDir = filepath.Join(d.OutDir(), "replays", "evidence")
+	}
+	_ = os.MkdirAll(evDir, 0o755)
+	_ = os.WriteFile(filepath.Join(evDir, d.Prop+".json"), body, 0o644)
 
 	evKinds := make([]string, 0, len(d.events))
 	for k := range d.events {
